@@ -225,6 +225,109 @@ Subscribes(lst, ev) ==
 Delivered(w, evs) == { ev \in evs : Subscribes(w.cfg.lst, ev) }
 
 ---------------------------------------------------------------------------
+(* Operations.  For every operation:                                        *)
+(*   XWhy(w, ...)   = "" when the call is legal in world w, else the class  *)
+(*                    of the reason ("locked", "dead-target", "args");      *)
+(*                    an illegal call panics and - for calls addressing a   *)
+(*                    single entity - leaves the world unchanged;           *)
+(*   XStep(w, ...)  = the world after a legal call;                         *)
+(*   XEvents(...)   = the event cores a legal call emits.                   *)
+
+First(whys) == LET nz == SelectSeq(whys, LAMBDA x : x # "") IN IF nz = <<>> THEN "" ELSE nz[1]
+LockWhy(w) == IF Locked(w) THEN "locked" ELSE ""
+
+(* Creation (World.NewEntity/NewEntityWith, Builder.New/NewBatch/NewBatchQ). *)
+(* hasRel: Builder.WithRelation was called; hasTgt: a target was passed.     *)
+CreateWhy(w, ids, hasRel, rel, hasTgt, t, n) ==
+    First(<< IF hasTgt /\ ~hasRel THEN "args" ELSE "",
+             LockWhy(w),
+             IF n < 1 THEN "args" ELSE "",
+             IF hasTgt /\ ~TargetOK(w, t) THEN "dead-target" ELSE "",
+             IF ~IdsLegal(w, ids) THEN "args" ELSE "",
+             IF hasTgt /\ ~(rel \in Range(ids) /\ rel \in w.cfg.rels) THEN "args" ELSE "" >>)
+
+CreateStep(w, hs, ids, vals, hasTgt, t) ==
+    AddEntities(w, hs, Range(ids), ValsFrom(w, ids, vals), IF hasTgt THEN t ELSE Zero)
+
+CreateEvents(w2, hs, ids) == { CreateEvent(w2, hs[i], ids) : i \in DOMAIN hs }
+
+RemoveWhy(w, h) == First(<< LockWhy(w), IF h \notin w.alive THEN "args" ELSE "" >>)
+RemoveStep(w, h) == DropEntities(w, {h})
+
+(* Exchange on one entity; relGiven == hasRel /\ hasTgt. *)
+ExchangeWhy(w, h, add, rem, hasRel, rel, hasTgt, t) ==
+    LET relGiven == hasRel /\ hasTgt IN
+    First(<< IF hasTgt /\ ~hasRel THEN "args" ELSE "",
+             LockWhy(w),
+             IF h \notin w.alive THEN "args" ELSE "",
+             IF h \in w.alive /\ relGiven /\ ~TargetOK(w, t)
+                /\ ExLegalOn(w, h, add, rem, relGiven, rel, Zero) THEN "dead-target" ELSE "",
+             IF h \in w.alive /\ ~ExLegalOn(w, h, add, rem, relGiven, rel, t) THEN "args" ELSE "" >>)
+
+ExchangeStep(w, h, add, rem, relGiven, t, vals) ==
+    LET w1 == ExApply(w, {h}, add, rem, relGiven, t) IN
+    IF vals # <<>> THEN SetVals(w1, h, add, vals) ELSE w1
+
+ExchangeEvents(w, w2, h, add, rem) ==
+    IF add = <<>> /\ rem = <<>> THEN {} ELSE { ExchangeEvent(w, w2, h, add, rem) }
+
+SetWhy(w, h, c) == IF h \in w.alive /\ c \in w.comps[h] THEN "" ELSE "args"
+SetStep(w, h, c, v) == IF c \in w.cfg.sized THEN [w EXCEPT !.vals[h][c] = v] ELSE w
+
+SetRelWhy(w, h, rel, t) ==
+    First(<< LockWhy(w),
+             IF h \notin w.alive THEN "args" ELSE "",
+             IF ~TargetOK(w, t) THEN "dead-target" ELSE "",
+             IF h \in w.alive /\ ~(rel \in w.comps[h] /\ rel \in w.cfg.rels) THEN "args" ELSE "" >>)
+SetRelStep(w, h, t) == [w EXCEPT !.tgt[h] = t]
+SetRelEvents(w, h, rel, t) == IF w.tgt[h] # t THEN { TargetEvent(w, h, rel) } ELSE {}
+
+(* Batch exchange over the entities matching filter f when the call is made. *)
+BatchSet(w, f) == IF FilterUsable(w, f) THEN QuerySet(w, f) ELSE {}
+
+BatchExUpWhy(w, f, add, rem, hasRel, t) ==
+    LET noop == add = <<>> /\ rem = <<>> IN
+    First(<< LockWhy(w),
+             IF noop /\ hasRel THEN "args" ELSE "",
+             IF ~FilterUsable(w, f) THEN "args" ELSE "",
+             IF ~noop /\ hasRel /\ ~TargetOK(w, t) THEN "dead-target" ELSE "" >>)
+
+BatchExAllLegal(w, M, add, rem, hasRel, rel, t) ==
+    \A h \in M : ExLegalOn(w, h, add, rem, hasRel, rel, t)
+
+BatchExStep(w, M, add, rem, hasRel, t) == ExApply(w, M, add, rem, hasRel, t)
+BatchExEvents(w, w2, M, add, rem) ==
+    IF add = <<>> /\ rem = <<>> THEN {} ELSE { ExchangeEvent(w, w2, h, add, rem) : h \in M }
+
+BatchSetRelUpWhy(w, f, t) ==
+    First(<< LockWhy(w),
+             IF ~TargetOK(w, t) THEN "dead-target" ELSE "",
+             IF ~FilterUsable(w, f) THEN "args" ELSE "" >>)
+BatchSetRelAllRel(w, M, rel) == \A h \in M : RelOf(w, w.comps[h]) = rel
+BatchSetRelChanged(w, M, t) == { h \in M : w.tgt[h] # t }
+BatchSetRelStep(w, M, t) == [w EXCEPT !.tgt = [h \in w.alive |-> IF h \in M THEN t ELSE w.tgt[h]]]
+BatchSetRelEvents(w, M, rel, t) == { TargetEvent(w, h, rel) : h \in BatchSetRelChanged(w, M, t) }
+
+BatchRemoveUpWhy(w, f) == First(<< LockWhy(w), IF ~FilterUsable(w, f) THEN "args" ELSE "" >>)
+BatchRemoveStep(w, M) == DropEntities(w, M)
+BatchRemoveEvents(w, M) == { RemoveEvent(w, h) : h \in M }
+
+ResetStep(w) == [InitWorld(w.cfg) EXCEPT !.regs = w.regs, !.nq = w.nq]
+
+ResWhy(w, add, r) == IF add = (r \in DOMAIN w.res) THEN "args" ELSE ""
+ResStep(w, add, r, tok) ==
+    IF add THEN [w EXCEPT !.res = [x \in DOMAIN w.res \cup {r} |-> IF x = r THEN tok ELSE w.res[x]]]
+    ELSE [w EXCEPT !.res = [x \in DOMAIN w.res \ {r} |-> w.res[x]]]
+
+(* Held queries *)
+OpenHeld(w, order, pend) ==
+    [w EXCEPT !.open = [q \in DOMAIN w.open \cup {w.nq} |->
+                            IF q = w.nq THEN [order |-> order, pos |-> 0, pend |-> pend] ELSE w.open[q]],
+              !.nq = @ + 1]
+
+CloseHeld(w, q) == [w EXCEPT !.open = [x \in DOMAIN w.open \ {q} |-> w.open[x]]]
+
+---------------------------------------------------------------------------
 (* Projection used by observation checks. *)
 
 ValPairs(w, h) == { <<c, w.vals[h][c]>> : c \in DOMAIN w.vals[h] }
